@@ -52,7 +52,24 @@ func (s *script) item(id int) *sdf.Triangle3 {
 	if s.Sliver > 0 && id%s.Sliver == 0 {
 		return sliverOf(id, 1+(id/s.Sliver)%2)
 	}
+	if s.Fan > 0 && id%s.Fan == s.Fan-1 {
+		// a fan triangle: its first vertex is the very first vertex of the stream (a mesh whose triangles share
+		// vertices with much earlier ones); the id is still carried by the other two vertices
+		t := triOf(id)
+		t[0] = v3.Vec{}
+		return t
+	}
 	return triOf(id)
+}
+
+// ident: the identity carried by the i-th item a producer emits (base = index of the producer's first
+// item). With Repeat = r every r-th item of a producer is the SAME item as the one before it (a renderer
+// may emit one triangle / segment twice - a shared cell edge, a re-traced outline); it has to arrive twice.
+func (s *script) ident(i, base int) int {
+	if j := i - base; s.Repeat > 1 && j > 0 && j%s.Repeat == s.Repeat-1 {
+		return i - 1
+	}
+	return i
 }
 
 // triID decodes a triangle read back from a sink; ok=false: not one of ours.
@@ -60,6 +77,14 @@ func triID(v [3][3]float64) (int, bool) {
 	a, b := v[0][0], v[0][1]
 	if a != math.Trunc(a) || b != math.Trunc(b) || a < 0 || a > 1000 || b < 0 || b > 1e6 {
 		return 0, false
+	}
+	if v[0] == [3]float64{0, 0, 0} && v[2][2] == 1 && v[1] == [3]float64{v[2][0] + 1, v[2][1] - 1, 0} {
+		// a fan triangle (or item 0 itself): the id is in vertices 1 and 2
+		a, b = v[2][0], v[2][1]-1
+		if a != math.Trunc(a) || b != math.Trunc(b) || a < 0 || a > 1000 || b < 0 || b > 1e6 {
+			return 0, false
+		}
+		return int(a) + 1000*int(b), true
 	}
 	if v[0][2] != 0 || v[2] != [3]float64{a, b + 1, 1} {
 		return 0, false
@@ -165,6 +190,8 @@ type script struct {
 	ReuseSlice bool   `json:"reuse_slice,omitempty"`
 	Path       string `json:"-"`                // output path chosen by the caller (concurrent sinks); "" = tmpPath
 	Sliver     int    `json:"sliver,omitempty"` // triangles only: every Sliver-th item is a needle (see sliverOf); 0: none
+	Repeat     int    `json:"repeat,omitempty"` // > 1: every Repeat-th item of a producer is the preceding item once more (see ident)
+	Fan        int    `json:"fan,omitempty"`    // triangles only, > 0: every Fan-th item has the stream's first vertex as its first vertex
 }
 
 func (s *script) totals() (bases []int, total int) {
@@ -220,7 +247,7 @@ func (r *scripted3) Render(_ sdf.SDF3, out sdf.Triangle3Writer) {
 				}
 			}
 			for k := range batch {
-				batch[k] = r.s.item(id)
+				batch[k] = r.s.item(r.s.ident(id, bases[p]))
 				id++
 			}
 			out.Write(batch)
@@ -271,7 +298,7 @@ func (r *scripted2) Render(_ sdf.SDF2, out sdf.Line2Writer) {
 				}
 			}
 			for k := range batch {
-				batch[k] = segOf(id)
+				batch[k] = segOf(r.s.ident(id, bases[p]))
 				id++
 			}
 			out.Write(batch)
@@ -614,12 +641,19 @@ func judge(s *script, d *delivery) (string, string) {
 	if len(foreign) > 0 {
 		return "foreign-item", fmt.Sprintf("the sink holds ids that were never emitted (emitted 0..%d): %s", total-1, short(foreign))
 	}
+	// how often every identity was emitted (1, or with Repeat 0 / 2)
+	bases, _ := s.totals()
+	prodOf := s.producerOf()
+	want := make([]int, total)
+	for i := 0; i < total; i++ {
+		want[s.ident(i, bases[prodOf[i]])]++
+	}
 	var lost, dup []int
 	for id, c := range count {
-		if c == 0 {
+		if c < want[id] {
 			lost = append(lost, id)
 		}
-		if c > 1 {
+		if c > want[id] {
 			dup = append(dup, id)
 		}
 	}
@@ -632,8 +666,8 @@ func judge(s *script, d *delivery) (string, string) {
 	if len(dup) > 0 {
 		return "duplicated", fmt.Sprintf("emitted %d items, sink holds %d: more than once %s", total, len(d.ids), short(dup))
 	}
-	// same multiset. order: every producer emitted its ids in increasing order.
-	prod := s.producerOf()
+	// same multiset. order: every producer emitted its ids in non-decreasing order.
+	prod := prodOf
 	last := make([]int, len(s.Batches))
 	for i := range last {
 		last[i] = -1
@@ -773,6 +807,12 @@ func drawScript(t *rapid.T, dim int) (*script, []string) {
 	if dim == 3 && rapid.IntRange(0, 2).Draw(t, "needles") == 0 {
 		s.Sliver = rapid.SampledFrom([]int{1, 2, 3, 7, 50}).Draw(t, "every")
 	}
+	if rapid.IntRange(0, 3).Draw(t, "repeated-items") == 0 {
+		s.Repeat = rapid.SampledFrom([]int{2, 3, 5, 40, 300}).Draw(t, "repeat-every")
+	}
+	if dim == 3 && rapid.IntRange(0, 3).Draw(t, "fan-triangles") == 0 {
+		s.Fan = rapid.SampledFrom([]int{2, 3, 5, 17, 100}).Draw(t, "fan-every")
+	}
 	budget := maxTotal()
 	var labels []string
 	for p := 0; p < np; p++ {
@@ -854,7 +894,9 @@ func classify(s *script, T int) (nt bool, labels []string) {
 	}
 	if s.Dim == 3 {
 		labels = append(labels, fmt.Sprintf("has-needle-triangles=%v", s.Sliver > 0 && total > 0))
+		labels = append(labels, fmt.Sprintf("has-fan-triangles=%v", s.Fan > 0 && total > s.Fan))
 	}
+	labels = append(labels, fmt.Sprintf("has-repeated-items=%v", s.Repeat > 1 && total > s.Repeat))
 	return
 }
 
@@ -871,7 +913,7 @@ func runScript(t ev.TB, rec *ev.Rec, s *script, extra []string) {
 	for i := range labels {
 		labels[i] = pre + labels[i]
 	}
-	rec.Case(nt, ev.Key(s.Dim, s.Sink, s.Batches, s.Yield, s.NilEmpty, s.Sliver, s.EachCloses, s.ReuseSlice), labels...)
+	rec.Case(nt, ev.Key(s.Dim, s.Sink, s.Batches, s.Yield, s.NilEmpty, s.Sliver, s.EachCloses, s.ReuseSlice, s.Repeat, s.Fan), labels...)
 	_, total := s.totals()
 	if total <= 600 {
 		rec.Sample(pre+s.Sink, s)
